@@ -430,6 +430,9 @@ def gen_seq_scn(rng, sid):
             else:
                 form = "chn" if rng.random() < 0.12 else "grp"
             l = " ".join(w[:5] + [w[5] if len(w) > 5 else "0", "as=" + form])
+        elif w[3] == "deltopic" and rng.random() < 0.45:
+            # round s14d: the store call of the owner's {del topic} fails (model step HubUnregFail)
+            l = " ".join(w[:5] + ["0", "fault=TopicDelete"])
         sc.bursts.append([l])
     return sc
 
@@ -931,7 +934,8 @@ def model_lines(sc):
             form = "grp"
             if q["k"] is not None and q["kind"] in ("sub", "leave"):
                 form = q.get("as") or natural_form(sc, q["si"], q["k"])     # the name the driver writes
-            out.append("op %s %s %s %s %s %s" % (w[3], w[1], w[2][1:], w[4] if len(w) > 4 else "0", q["arg"] or "0", form))
+            kind = "deltopicfail" if (w[3] == "deltopic" and q.get("fault") == "TopicDelete") else w[3]
+            out.append("op %s %s %s %s %s %s" % (kind, w[1], w[2][1:], w[4] if len(w) > 4 else "0", q["arg"] or "0", form))
     out.append("end")
     return out
 
@@ -946,8 +950,17 @@ def impl_projection(sc, r):
         top = sorted((k, int(t["loaded"]), int(t["stored"])) for k, t in b["topics"].items())
         term = sorted(si for si, st in b["sess"].items() if st["term"])
         cat = sorted((k, si) for k, t in b["topics"].items() if t["loaded"] for si in t["chansess"])
+        # round s14d: (paused, deleted) of every registered topic; the failed store call of this op and the flags of its topic
+        flags = sorted((k, int(t.get("paused", "0")), int(t.get("deleted", "0"))) for k, t in b["topics"].items() if t["loaded"])
+        fired = sorted(rid[1:] for (_, rid), (_, f) in b.get("faults", {}).items() if f)
+        fds = []
+        for q in requests_of(sc.bursts[bi]):
+            if q.get("fault") and b.get("faults", {}).get((q["si"], q["rid"]), (None, False))[1] and b["topics"].get(q["k"], {}).get("loaded"):
+                t = b["topics"][q["k"]]
+                fds.append((q["k"], int(t.get("paused", "0")), int(t.get("deleted", "0"))))
         res.append({"replies": [list(x) for x in fr], "subs": [list(x) for x in att], "sessions": [list(x) for x in tat],
-                    "chansess": [list(x) for x in cat], "topics": [list(x) for x in top], "terminated": term})
+                    "chansess": [list(x) for x in cat], "topics": [list(x) for x in top], "terminated": term,
+                    "flags": [list(x) for x in flags], "fired": fired, "fdstatus": [list(x) for x in fds]})
     return res
 
 
@@ -962,7 +975,10 @@ def parse_model(lines):
             cur = []
             res[w[1]] = cur
         elif w[0] == "op":
-            cur.append({"replies": [], "subs": [], "sessions": [], "chansess": [], "topics": [], "terminated": []})
+            cur.append({"replies": [], "subs": [], "sessions": [], "chansess": [], "topics": [], "terminated": [],
+                        "flags": [], "fired": [], "fdstatus": []})
+            if len(w) > 1:
+                cur[-1]["_rid"] = w[1]
         elif w[0] == "f":
             cur[-1]["replies"].append([int(w[1]), w[2], int(w[3]), w[4] if len(w) > 4 else ""])
         elif w[0] == "sub":
@@ -975,8 +991,15 @@ def parse_model(lines):
             cur[-1]["topics"].append([int(w[1]), int(w[2]), int(w[3])])
         elif w[0] == "term":
             cur[-1]["terminated"].append(int(w[1]))
+        elif w[0] == "flags":
+            cur[-1]["flags"].append([int(w[1]), int(w[2]), int(w[3])])
+        elif w[0] == "fdstatus":
+            cur[-1]["fdstatus"].append([int(w[1]), int(w[2]), int(w[3])])
+        elif w[0] == "fired":
+            cur[-1]["fired"].append(w[1])
     for ops in res.values():
         for o in ops:
+            o.pop("_rid", None)
             for key in o:
                 o[key].sort()
     return res
